@@ -9,14 +9,15 @@ The specification (`specTagScores`, `specPickTags`, `specTokenTags`, `specNTags`
 namespace V
 
 /-- well-formed tag models: unique tokens; a bias entry and, in every tag n-gram weight, one weight per trainable class;
-relative positions within the window of their kind; non-empty n-grams; type codes in 1..6 -/
+non-empty n-grams; type codes in 1..6.  Relative positions are NOT restricted to the window of their kind: the tag
+table is sized by the largest relative position in the model -/
 structure WFTags (m : WModel) : Prop where
   tokens_nodup : (m.tagModels.map (·.token)).Nodup
   bias_len : ∀ tm ∈ m.tagModels, tm.bias.length = nClass tm.tags
   char_ok : ∀ tm ∈ m.tagModels, ∀ d ∈ tm.charNgrams, d.ngram ≠ [] ∧
-    ∀ w ∈ d.weights, w.rel ≤ m.charW ∧ w.weights.length = nClass tm.tags
+    ∀ w ∈ d.weights, w.weights.length = nClass tm.tags
   type_ok : ∀ tm ∈ m.tagModels, ∀ d ∈ tm.typeNgrams, d.ngram ≠ [] ∧ (∀ t ∈ d.ngram, 1 ≤ t ∧ t ≤ 6) ∧
-    ∀ w ∈ d.weights, w.rel ≤ m.typeW ∧ w.weights.length = nClass tm.tags
+    ∀ w ∈ d.weights, w.weights.length = nClass tm.tags
 
 /-- all tag rows, one per character: the row of the unknown-free token ending at that character, else absent tags -/
 def specAllTags (m : WModel) (text : List Char) (bs : List B) : List Tag :=
@@ -130,4 +131,29 @@ example : C06_exRun.map (·.bounds) = .ok [B.W, B.N] := by decide
 example : C06_exRun.map (·.tags) = .ok [some ['y'], none, none] := by decide
 example : C06_exRun.bind (·.tagCandidates 1) = .ok [[(['x'], 0), (['y'], 1)]] := by decide
 
+/-! ## non-vacuity beyond the window: a tag n-gram at relative position 2 with `charW = 1` satisfies `WFTags`, is read
+by `fill_tags` and changes the chosen tag (from `y` above to `x`) -/
+
+/-- the example model with the character tag n-gram moved to relative position 2, beyond `charW = 1`, and voting for
+the first candidate -/
+def C06_exModelFar : WModel :=
+  { C01_exModel with
+    tagModels := [{ token := ['a'], tags := [[['x'], ['y']]], charNgrams := [⟨['b', 'a'], [⟨2, [5, 0]⟩]⟩],
+                    typeNgrams := [⟨[2], [⟨1, [0, 1]⟩]⟩], bias := [0, 0] }] }
+
+example : WFModel C06_exModelFar :=
+  { charW_pos := by decide, charW_le := by decide, typeW_pos := by decide, typeW_le := by decide,
+    char_nodup := by decide, char_shape := by decide, type_nodup := by decide, type_shape := by decide,
+    dict_nodup := by decide, dict_shape := by decide }
+example : WFTags C06_exModelFar := ⟨by decide, by decide, by decide, by decide⟩
+example : ∃ tm ∈ C06_exModelFar.tagModels, ∃ d ∈ tm.charNgrams, ∃ w ∈ d.weights, C06_exModelFar.charW < w.rel := by decide
+example : specTagScores (C06_exModelFar.tagModels.getD 0 default) C01_exSentence.text 0 = [5, 1] := by decide
+
+def C06_exRunFar : Res Sentence :=
+  (Predictor.new {} C06_exModelFar true).bind fun p =>
+    (p.predict 0 C01_exSentence).bind fun s1 => ({ p with storeTagScores := true } : Predictor).predictTags s1
+
+example : C06_exRunFar.map (·.bounds) = .ok [B.W, B.N] := by decide
+example : C06_exRunFar.map (·.tags) = .ok [some ['x'], none, none] := by decide
+example : C06_exRunFar.bind (·.tagCandidates 1) = .ok [[(['x'], 5), (['y'], 1)]] := by decide
 end V
